@@ -255,7 +255,7 @@ class Walker:
         ok = p in facts
         if self.record:
             f = self.f
-            key = "R-NULL|%s|%s|%s" % (f.short, p, norm(node)[:70])
+            key = "R-NULL|%s|%s|%s" % (f.short, "<local>" if p in f.local_names else p, f.key(node)[:70])
             self.obs.append(Ob("D-a", "R-NULL", key, f.loc(node), ok,
                                "%s of optional slot %s %s" % (how, p, "is dominated by a non-None fact" if ok else
                                                             "is not dominated by any non-None test or assignment"),
